@@ -144,6 +144,28 @@ def stepOld (st : Static) (g : GState) : OpR → GState
   | .remove m => step st g (.remove m)
   | .extract gone => addGlueOld st g gone
 
+/-! ### Modules that are still being imported (finding F44, repaired in /repo)
+
+The import system registers a module in `sys.modules` before its body has run; a scan that happens in that window sees a
+module that has not defined `_stackscope_install_glue_` *yet*.  Such a module (`__spec__._initializing`) is skipped like a
+vanished one: neither pop happens, and the cache is reset so that the next extraction scans again. -/
+
+/-- One iteration for a name from the snapshot: skipped when the module is gone or still initializing. -/
+def visitI (st : Static) (init : List Mod) (g : GState) (m : Mod) : GState :=
+  if init.contains m then g else visitR st g m
+
+/-- `add_glue_as_needed()` during which the modules in `init` are still being imported. -/
+def addGlueI (st : Static) (g : GState) (init : List Mod) : GState :=
+  if g.present.length == g.cache then { g with log := g.log ++ [.returned] }
+  else
+    let names := g.present
+    let g' := names.foldl (visitI st init) g
+    let complete := names.all (fun m => !init.contains m)
+    { g' with cache := if complete then names.length else 0, log := g'.log ++ [.returned] }
+
+/-- What the code did before the repair: an initializing module was visited like any other. -/
+def addGlueIOld (st : Static) (g : GState) (_init : List Mod) : GState := addGlue st g
+
 /-! ### A scan during which modules appear
 
 A glue function that imports something (its plugin, a submodule) — or another thread importing while this one sits in
